@@ -53,3 +53,22 @@ Definition quot_patch : node := Map [("spec", Map [("beta", Scalar TFloat SPlain
 Lemma scalar_keeps_target_quoting :
   kmerge quot_patch quot_target = Ok (Some (Map [("spec", Map [("beta", Scalar TFloat SDouble "0.5")])])).
 Proof. vm_compute. reflexivity. Qed.
+
+(* ---- composite merge key: "$patch: delete" on a port written without protocol removes it, also when another element
+        spells a protocol (was finding C04/reference/composite-key-delete-ignored-when-protocol-spelled-elsewhere) ---- *)
+Definition svc_schema : sroots :=
+  [("Service", "v1", ST "" [] [("spec", ST "" [] [("ports", ST "merge" ["port"; "protocol"] [] [ST "" [] [] []])] [])] [])].
+Definition svc (ports : list node) : node :=
+  Map [("apiVersion", Scalar TStr SPlain "v1"); ("kind", Scalar TStr SPlain "Service"); ("spec", Map [("ports", Seq ports)])].
+Definition cd_port53 : node := Map [("port", Scalar TInt SPlain "53"); ("name", Scalar TStr SPlain "a")].
+Definition cd_port80 : node := Map [("port", Scalar TInt SPlain "80"); ("protocol", Scalar TStr SPlain "TCP")].
+Definition cd_t : node := svc [cd_port53; cd_port80].
+Definition cd_p : node := svc [Map [("port", Scalar TInt SPlain "53"); ("$patch", Scalar TStr SPlain "delete")]].
+Definition smerge (p t : node) : res (option node) :=
+  merge2 (tree_schema svc_schema) kopts (fun _ => false) (Some p) (Some t).
+Lemma composite_delete_works :
+  smerge cd_p cd_t = Ok (Some (svc [cd_port80])) /\
+  smerge cd_p (svc [cd_port53]) =
+  Ok (Some (Map [("apiVersion", Scalar TStr SPlain "v1"); ("kind", Scalar TStr SPlain "Service");
+                 ("spec", Map [("ports", Seq [])])])).
+Proof. split; vm_compute; reflexivity. Qed.
